@@ -337,11 +337,13 @@ func (n *RegexNode) finalOptimize() *RegexNode {
 		// we've already outlined is problematic.
 		node := rootNode.Children[0] // skip implicit root capture node
 		atomicByAncestry := true     // the root is implicitly atomic because nothing comes after it (same for the implicit root capture)
+		underAtomic := false         // inside an explicit atomic group only the first success of a lazy loop is ever explored
 		for {
 			if verifRewritesOff&4 != 0 {
 				break
 			}
 			if node.T == NtAtomic {
+				underAtomic = true
 				node = node.Children[0]
 				continue
 			} else if node.T == NtConcatenate {
@@ -350,7 +352,7 @@ func (n *RegexNode) finalOptimize() *RegexNode {
 				continue
 			} else if node.N == math.MaxInt32 &&
 				((node.T == NtOneloop || node.T == NtOneloopatomic || node.T == NtNotoneloop || node.T == NtNotoneloopatomic || node.T == NtSetloop || node.T == NtSetloopatomic) ||
-					((node.T == NtOnelazy || node.T == NtNotonelazy || node.T == NtSetlazy) && !atomicByAncestry)) {
+					((node.T == NtOnelazy || node.T == NtNotonelazy || node.T == NtSetlazy) && !atomicByAncestry && !underAtomic)) {
 
 				if node.Parent != nil && node.Parent.T == NtConcatenate {
 					node.Parent.Children = slices.Insert(node.Parent.Children, 1, &RegexNode{T: NtUpdateBumpalong, Options: node.Options, Parent: node.Parent})
